@@ -48,6 +48,24 @@ def obligations(tier):
                           reach="fwd_reach", reach_shards=[{"rec": [[0, 1, 1], [0, 2, 1]], "via": "proc", "timecode": 1}], encoded=ENC,
                           bounds="2 recipients; via process_message (every non-control msg_type), timecode header layout, publisher among the recipients",
                           symbolic=sym))
+    # the run() loop itself: two connections ready in the same select round, both service orders
+    kinds = ["sub", "unsub", "suball", "data", "disc"] if tier == "quick" else ["sub", "unsub", "pause", "resume", "suball", "data", "disc"]
+    rs = []
+    for f1 in kinds:
+        for f2 in kinds:
+            if "data" not in (f1, f2):
+                continue
+            for s1 in (0, 1, 2):
+                for s2 in (0, 1, 2):
+                    for rev in (0, 1):
+                        rs.append({"f1": f1, "f2": f2, "s1": s1, "s2": s2, "rev": rev})
+                        if tier != "quick" or (f1 == "data" and s2 == 1 and rev == 0):
+                            rs.append({"f1": f1, "f2": f2, "s1": s1, "s2": s2, "rev": rev, "f2dead": 1})
+    obs.append(Obligation("select_round_both_service_orders", "harness.mgr_round", "rnd", rs, cond_timeout=120, path_timeout=30,
+                          reach="rnd_reach", reach_shards=[{"f1": "sub", "f2": "data", "s1": 0, "s2": 0, "rev": 0}],
+                          encoded=ENC + ["pyrtma.manager:MessageManager.run", "pyrtma.manager:MessageManager.read_message"],
+                          bounds="one round of the real run() loop with two client connections ready at once (each sends one frame: subscribe/unsubscribe/pause/resume/subscribe-all/data/disconnect), both service orders, each client previously unsubscribed/subscribed/subscribed-to-all, an old subscriber present; optionally the second client dead on write",
+                          symbolic="the message type (any int32 outside the manager's own types), payload size"))
     return obs
 
 MANIFEST = {
